@@ -2,6 +2,8 @@
 //! validates against the TLA+ specifications in /verif/spec. See /verif/DESIGN.md.
 use kvc::util::Opts;
 mod hist;
+mod keys;
+mod privs;
 mod smoke;
 mod world;
 
@@ -15,6 +17,8 @@ fn main() {
     let rc = match args[1].as_str() {
         "smoke" => smoke::run(&opts),
         "hist" => hist::run(&opts),
+        "keys" => keys::run(&opts),
+        "priv" => privs::run(&opts),
         other => {
             eprintln!("unknown subcommand {other}");
             2
